@@ -50,7 +50,8 @@ def objOf (idx : Nat) (j : Json) : Obj :=
     skipDeps := bool j "skipDeps"
     refKind := kindOfStr (str j "refKind")
     ofKind := kindOfStr (str j "ofKind")
-    refVer := str j "refVer" }
+    refVer := str j "refVer"
+    sel := bool j "sel" }
 
 def enumFrom {α : Type} : Nat → List α → List (Nat × α)
   | _, [] => []
@@ -131,6 +132,7 @@ def Req.desc : Req → String
   | .get k => s!"get:{k.kind.str}:{k.name}"
   | .list kd => s!"list:{kd.str}"
   | .listUsagesOf _ _ => "list:usage"
+  | .listSel kd _ => s!"list:{kd.str}"
   | .setStatus k _ _ => s!"update:{k.kind.str}:{k.name}:status"
   | .removeFin k _ _ => s!"update:{k.kind.str}:{k.name}"
   | .delete k fg => s!"delete:{k.kind.str}:{k.name}" ++ (if fg then ":fg" else "")
